@@ -5,9 +5,9 @@
     - the body runs at most once per argument tuple between two [cache.clear()]s;
     - all calls with one argument tuple that return between the same two
       [cache.clear()]s return the same value. *)
-From Coq Require Import List ZArith Bool Arith Lia.
+From Coq Require Import List ZArith Bool Arith.
 Import ListNotations.
-From TI Require Import lib.Sched model.Caches.
+From TI Require Import lib.Sched model.Caches proofs.C15Arith.
 
 Section Memo.
   (* what the n-th body execution does for key k: returns a value or raises ([None]); arbitrary *)
@@ -38,7 +38,7 @@ Section Memo.
   Lemma minv_init prog : MInv (minit prog).
   Proof.
     constructor; simpl; unfold busy, pending; simpl; intros;
-      try congruence; try lia; try tauto; try discriminate.
+      try congruence; try nat_ar; try apply Nat.le_0_l; try tauto; try discriminate.
   Qed.
 
   (** two busy threads are the same thread *)
@@ -163,7 +163,7 @@ Section Memo.
         * exfalso. apply NP'. exists t, bvv. simpl. now rewrite upd_same.
         * rewrite upd_other by auto. apply (i_calls0 s I); auto.
       + intro k'. destruct (Nat.eq_dec k' k) as [->|N].
-        * rewrite upd_same. lia.
+        * rewrite upd_same, C0. apply le_n.
         * rewrite upd_other by auto. apply (i_calls1 s I).
       + intros u k' v P. destruct (Nat.eq_dec u t) as [->|N].
         * rewrite upd_same in P. discriminate.
@@ -264,14 +264,14 @@ Section Memo.
         * rewrite upd_same in P. discriminate.
         * rewrite upd_other in P by auto. rewrite (others_idle s t u I B N) in P. discriminate.
       + reflexivity.
-      + intros; lia.
+      + intros; apply Nat.le_0_l.
       + intros u k' w P. destruct (Nat.eq_dec u t) as [->|N].
         * rewrite upd_same in P. discriminate.
         * rewrite upd_other in P by auto. rewrite (others_idle s t u I B N) in P. discriminate.
       + intros u ep k' w P.
         assert (P' : In (ep, k', w) (m_rets (m_th s u))).
         { destruct (Nat.eq_dec u t) as [->|N]; [rewrite upd_same in P|rewrite upd_other in P by auto]; auto. }
-        destruct (i_rets_epoch s I u ep k' w P') as [Le _]. split; [lia|]. intros ->. lia.
+        destruct (i_rets_epoch s I u ep k' w P') as [Le _]. split; [now apply le_S|]. intros ->. exfalso. exact (Nat.nle_succ_diag_l _ Le).
       + intros t1 t2 ep k' v1 v2 P1 P2. apply (i_rets_agree s I t1 t2 ep k');
           [destruct (Nat.eq_dec t1 t) as [->|N]; [rewrite upd_same in P1|rewrite upd_other in P1 by auto]; auto
           |destruct (Nat.eq_dec t2 t) as [->|N]; [rewrite upd_same in P2|rewrite upd_other in P2 by auto]; auto].
